@@ -31,6 +31,13 @@ CLAIMED["C09"] = dict(text="Bounded symbolic model checking of the real paramete
                   "positive reals (nonlinear obligations 4*eps*sig^6 = C6, 4*eps*sig^12 = C12 discharged by z3).",
              design="DESIGN.md 4/C09", technique="symbolic execution of the real Python code with z3 (symx): selectors for tables, symbolic reals (QF_NRA) for non-bonded values",
              note="table sizes, type alphabets and molecule layouts as in the evidence bounds; ties between equally specific dihedral types are left open; reals not floats. " + NOTE_COMMON)
+CLAIMED["C07"] = dict(text="Bounded symbolic model checking of the real restraint code with symbolic reals: geometric predicates (accepted => definition), "
+                  "direction restriction, pbc_min_dist == independently stated minimum image (catalogue boxes, quotient forking), checks_milestones "
+                  "(accepted iff within bounds, distance taken by minimum image to the reference residue), set_restraints bounds on chains with "
+                  "symbolic distance/tolerance/sizes, cycle initialisation on rings of every size/labelling/insertion order, end-to-end sampling support.",
+             design="DESIGN.md 4/C07", technique="symbolic execution of the real Python code with z3 (symx), QF_NRA/QF_LRA obligations; selectors for graph shapes",
+             note="reals not floats; arccos/degrees uninterpreted monotone; statistical shape of sampling and `bendiness` excluded; composition of the lemmas (every generated "
+                  "residue passes update_positions, C05) is by reading the real control flow, not by one end-to-end symbolic run. " + NOTE_COMMON)
 NOT_YET = {}
 def main():
     props = [json.loads(l) for l in open(os.path.join(ROOT, "properties.jsonl"))]
